@@ -12,14 +12,14 @@
    stamp clk f             f with the clock made explicit: a file header whose FileCreationTime Parse left empty (the
                            four columns were no valid time; no rule rejects that) is written by FileCreationTimeField()
                            as time.Now().Format("1504") = clk.  A header that holds a time is untouched
-                           (C02_reader_domain_timed needs no clock)
+                           (C02_reader_domain_partial needs no clock)
    line_ok94 l             94 characters, valid UTF-8
    grammar_ok              the automaton 1 (5 (6 7^* )^* 8)^* 9 filler^* of Props/C02.v
    shape_ok LT g           the hypothesis of C02_physical_counts (Props/C02Counts.v): every record's layout starts with
                            the record-type character of its place in the tree *)
 From Coq Require Import String List NArith ZArith Bool.
 From ACH Require Import Arith.
-From ACH Require Import ReaderValid ReaderWidth ReaderWidthFacts.
+From ACH Require Import ReaderValid WrittenCountsFacts ReaderWidth ReaderWidthFacts.
 From ACH Require Import Layouts RecRules Tables C01Obl C01FileEx C01FileObl C01ValidObl C02ValidObl C02ReaderObl.
 Import ListNotations.
 Local Open Scope string_scope.
@@ -38,8 +38,11 @@ Theorem C02_reader_domain : forall text f clk,
 Proof. exact c02_reader_domain. Qed.
 Print Assumptions C02_reader_domain.
 
-(* a header that came with a creation time: the tree as the reader returned it *)
-Theorem C02_reader_domain_timed : forall text f,
+(* the statement literally about write_file_padded LT f (the writer of Codec/Dispatch.v, whose hand model of
+   FileCreationTimeField covers non-empty values only) holds under the exact hypothesis that no file header of the
+   tree needs the clock; without it it is refuted IN THE MODEL (C02_reader_domain_clockless_refuted below) — the real
+   accessor formats time.Now(), which C02_reader_domain covers *)
+Theorem C02_reader_domain_partial : forall text f,
   read_text_valid LT RT AT text = Some (f, false) -> all_file has_time f = true ->
   let out := write_file_padded LT f in
   Forall line_ok94 out
@@ -48,7 +51,24 @@ Theorem C02_reader_domain_timed : forall text f,
   /\ grammar_ok out = true
   /\ shape_ok LT f = true.
 Proof. exact c02_reader_domain_timed. Qed.
-Print Assumptions C02_reader_domain_timed.
+Print Assumptions C02_reader_domain_partial.
+
+(* the written text of a reader-produced tree holds what the tree holds: C02_physical_counts without its shape
+   hypothesis (adv_only: the ErrFileADVOnly test — an ADV batch is not mixed with batches of another SEC code) *)
+Theorem C02_reader_physical_counts : forall text f clk,
+  read_text_valid LT RT AT text = Some (f, false) -> wf_utf8 clk = true -> rune_count clk = 4%nat ->
+  let g := stamp clk f in
+  adv_only g = true ->
+  let ls := write_file_padded LT g in
+  batch_header_lines ls = length (all_batches g)
+  /\ entry_addenda_lines ls = list_sum (map tree_count (all_batches g))
+  /\ length (write_file LT g) = (2 + list_sum (map (fun b => 2 + tree_count b) (all_batches g)))%nat
+  /\ block_lines ls = blocks_of (length (write_file LT g))
+  /\ (10 * block_lines ls = length ls)%nat
+  /\ map (fun s => (entry_addenda_lines (fst s), snd s)) (batch_segments ls)
+     = map (fun b => (tree_count b, render_rec LT (bt_ctl b))) (all_batches g).
+Proof. exact c02_reader_physical_counts. Qed.
+Print Assumptions C02_reader_physical_counts.
 
 (* after the framing: lines of valid UTF-8 (any lines, not only those [read_lines] yields) *)
 Theorem C02_reader_domain_lines : forall ls f clk,
@@ -113,8 +133,12 @@ Proof. exact parsed_columns_reviewed. Qed.
 Theorem C02_reader_domain_example :
   read_text_valid LT RT AT ex_text = Some (tree_of ex_text, false)
   /\ all_file has_time (tree_of ex_text) = true /\ length ex_lines = 20%nat
-  /\ Forall line_ok94 (write_file_padded LT (tree_of ex_text)) /\ grammar_ok (write_file_padded LT (tree_of ex_text)) = true.
-Proof. exact (conj (proj1 ex_text_accepted) (conj (proj1 (proj2 ex_text_accepted)) (conj (proj2 (proj2 ex_text_accepted)) ex_text_domain))). Qed.
+  /\ Forall line_ok94 (write_file_padded LT (tree_of ex_text)) /\ grammar_ok (write_file_padded LT (tree_of ex_text)) = true
+  /\ adv_only (stamp (bstr "0815") (tree_of ex_text)) = true.
+Proof.
+  exact (conj (proj1 ex_text_accepted) (conj (proj1 (proj2 ex_text_accepted)) (conj (proj2 (proj2 ex_text_accepted))
+          (conj (proj1 ex_text_domain) (conj (proj2 ex_text_domain) ex_text_adv_only))))).
+Qed.
 
 (* the design's anticipated finding (fixed: c36410fd): an accepted 798 record with data in columns 65..70 is
    written back with that data in its columns, 94 characters *)
